@@ -823,3 +823,117 @@ Proof.
   intros H. pose proof (eval_c_sound_type e t H) as Ht. split; [exact Ht|]. eapply has_type_not_err; eauto.
 Qed.
 End SoundC.
+
+Definition cast_num (op : binop) : list (binop * ty * ty * (option ty * option ty * ty)) :=
+  [(op, TInt, TObject, (None, Some TDec, TDec)); (op, TDec, TObject, (None, Some TDec, TDec));
+   (op, TObject, TInt, (Some TDec, None, TDec)); (op, TObject, TDec, (Some TDec, None, TDec))].
+Definition cast_cmp (op : binop) : list (binop * ty * ty * (option ty * option ty * ty)) :=
+  [(op, TInt, TObject, (None, Some TDec, TBool)); (op, TDec, TObject, (None, Some TDec, TBool));
+   (op, TStr, TObject, (None, Some TStr, TBool)); (op, TDate, TObject, (None, Some TDate, TBool));
+   (op, TObject, TInt, (Some TDec, None, TBool)); (op, TObject, TDec, (Some TDec, None, TBool));
+   (op, TObject, TStr, (Some TStr, None, TBool)); (op, TObject, TDate, (Some TDate, None, TBool))].
+
+(* every operand combination the implicit cast makes typable, with the cast inserted and the node's dtype:
+   object against int or Decimal is cast to Decimal (never to int), against str to str, against date to date;
+   object against bool, object or NULL stays a compilation error, and so does date +/- object on the int side *)
+Theorem cast_table_spec :
+  cast_table =
+  (cast_num BAdd ++ cast_num BSub ++ cast_num BMul ++ cast_num BDiv ++ cast_num BMod
+   ++ cast_cmp BEq ++ cast_cmp BNe ++ cast_cmp BLt ++ cast_cmp BLe ++ cast_cmp BGt ++ cast_cmp BGe
+   ++ [(BMatch, TStr, TObject, (None, Some TStr, TBool)); (BMatch, TObject, TStr, (Some TStr, None, TBool));
+       (BNotMatch, TStr, TObject, (None, Some TStr, TBool)); (BNotMatch, TObject, TStr, (Some TStr, None, TBool));
+       (BSubDateDate, TDate, TObject, (None, Some TDate, TInt)); (BSubDateDate, TObject, TDate, (Some TDate, None, TInt))])%list.
+Proof. vm_compute. reflexivity. Qed.
+
+(* ---- conservativity: on cast-free trees (typed by type_of) the cast-aware typing and evaluator coincide with
+   type_of and Eval.eval, whatever the cast functions are ---- *)
+Section Conservative.
+Variable cols aggs : list ty.
+Variable castf : ty -> value -> value.
+Variable r : row.
+Variable st : list value.
+Notation tyc := (type_of_c cols aggs).
+Notation evc := (eval_c cols aggs castf r st).
+
+Definition cons_at (e : enode) : Prop :=
+  forall t, type_of cols aggs e = Some t -> tyc e = Some t /\ evc e = eval r st e.
+
+Lemma cons_args args ts :
+  Forall cons_at args -> all_some (map (type_of cols aggs) args) = Some ts ->
+  all_some (map tyc args) = Some ts /\ Forall (fun a => evc a = eval r st a) args.
+Proof.
+  intros F. revert ts. induction F as [|a l Ha F IH]; intros ts H; simpl in *; [split; [exact H|constructor]|].
+  destruct (type_of cols aggs a) as [t|] eqn:E; [|discriminate H]. destruct (Ha t E) as [Ht Hv].
+  destruct (all_some (map (type_of cols aggs) l)) as [rs|] eqn:El; [|discriminate H].
+  destruct (IH rs eq_refl) as [Hts Hvs]. rewrite Ht, Hts. split; [exact H|now constructor].
+Qed.
+
+Lemma and_go_ext l : Forall (fun a => evc a = eval r st a) l ->
+  (fix go (l : list enode) : value :=
+     match l with [] => VBool true
+     | a :: t => let v := evc a in if is_null v then VNull else if truthy v then go t else VBool false end) l
+  = (fix go (l : list enode) : value :=
+     match l with [] => VBool true
+     | a :: t => let v := eval r st a in if is_null v then VNull else if truthy v then go t else VBool false end) l.
+Proof.
+  induction 1 as [|a l Ha F IH]; [reflexivity|]. cbv zeta. rewrite Ha.
+  destruct (is_null (eval r st a)); [reflexivity|]. destruct (truthy (eval r st a)); [exact IH|reflexivity].
+Qed.
+
+Lemma or_go_ext l : Forall (fun a => evc a = eval r st a) l -> forall acc,
+  (fix go (acc : value) (l : list enode) : value :=
+     match l with [] => acc
+     | a :: t => let v := evc a in if truthy v then VBool true else go (if is_null v then VNull else acc) t end) acc l
+  = (fix go (acc : value) (l : list enode) : value :=
+     match l with [] => acc
+     | a :: t => let v := eval r st a in if truthy v then VBool true else go (if is_null v then VNull else acc) t end) acc l.
+Proof.
+  induction 1 as [|a l Ha F IH]; intros acc; [reflexivity|]. cbv zeta. rewrite Ha.
+  destruct (truthy (eval r st a)); [reflexivity|]. apply IH.
+Qed.
+
+Lemma coalesce_go_ext l : Forall (fun a => evc a = eval r st a) l ->
+  (fix go (l : list enode) : value :=
+     match l with [] => VNull | a :: t => let v := evc a in if is_null v then go t else v end) l
+  = (fix go (l : list enode) : value :=
+     match l with [] => VNull | a :: t => let v := eval r st a in if is_null v then go t else v end) l.
+Proof.
+  induction 1 as [|a l Ha F IH]; [reflexivity|]. cbv zeta. rewrite Ha.
+  destruct (is_null (eval r st a)); [exact IH|reflexivity].
+Qed.
+
+Lemma map_ext_forall l : Forall (fun a => evc a = eval r st a) l -> map evc l = map (eval r st) l.
+Proof. induction 1 as [|a l Ha F IH]; [reflexivity|]. simpl. now rewrite Ha, IH. Qed.
+
+Theorem conservative : forall e, cons_at e.
+Proof.
+  apply enode_ind'; unfold cons_at.
+  - intros v t H. split; [exact H|reflexivity].
+  - intros i t H. split; [exact H|reflexivity].
+  - intros h t H. split; [exact H|reflexivity].
+  - intros op e IH t H. simpl in H. destruct (type_of cols aggs e) as [a|] eqn:E; [|discriminate H].
+    destruct (IH a E) as [Ht Hv]. simpl. rewrite Ht, Hv. split; [exact H|reflexivity].
+  - intros op e1 e2 IH1 IH2 t H. simpl in H.
+    destruct (type_of cols aggs e1) as [a|] eqn:E1; [|discriminate H].
+    destruct (type_of cols aggs e2) as [b|] eqn:E2; [|discriminate H].
+    destruct (IH1 a E1) as [Ht1 Hv1]. destruct (IH2 b E2) as [Ht2 Hv2].
+    simpl. rewrite Ht1, Ht2. unfold binop_casts, binop_c. rewrite H. split; [reflexivity|].
+    unfold bin_c, apply_cast. now rewrite Hv1, Hv2.
+  - intros e1 e2 e3 IH1 IH2 IH3 t H. simpl in H.
+    destruct (type_of cols aggs e1) as [a|] eqn:E1; [|discriminate H].
+    destruct (type_of cols aggs e2) as [b|] eqn:E2; [|discriminate H].
+    destruct (type_of cols aggs e3) as [c|] eqn:E3; [|discriminate H].
+    destruct (IH1 a E1) as [Ht1 Hv1]. destruct (IH2 b E2) as [Ht2 Hv2]. destruct (IH3 c E3) as [Ht3 Hv3].
+    simpl. rewrite Ht1, Ht2, Ht3, Hv1, Hv2, Hv3. split; [exact H|reflexivity].
+  - intros args F t H. simpl in H. destruct (all_some (map (type_of cols aggs) args)) as [ts|] eqn:E; [|discriminate H].
+    destruct (cons_args args ts F E) as [Hts Hvs]. simpl. rewrite Hts. split; [exact H|now apply and_go_ext].
+  - intros args F t H. simpl in H. destruct (all_some (map (type_of cols aggs) args)) as [ts|] eqn:E; [|discriminate H].
+    destruct (cons_args args ts F E) as [Hts Hvs]. simpl. rewrite Hts. split; [exact H|now apply or_go_ext].
+  - intros args F t H. simpl in H. destruct (all_some (map (type_of cols aggs) args)) as [ts|] eqn:E; [|discriminate H].
+    destruct (cons_args args ts F E) as [Hts Hvs]. simpl. rewrite Hts. split; [exact H|now apply coalesce_go_ext].
+  - intros f args F t H. simpl in H. destruct (all_some (map (type_of cols aggs) args)) as [ts|] eqn:E; [|discriminate H].
+    destruct (cons_args args ts F E) as [Hts Hvs]. simpl. rewrite Hts, (map_ext_forall args Hvs). split; [exact H|reflexivity].
+  - intros n e items IH t H. simpl in H. destruct (type_of cols aggs e) as [a|] eqn:E; [|discriminate H].
+    destruct (IH a E) as [Ht Hv]. simpl. rewrite Ht, Hv. split; [exact H|reflexivity].
+Qed.
+End Conservative.
